@@ -1,6 +1,8 @@
 import ZV.Model.C03
 import ZV.Drv.C23
-/-! line protocol for C03: `c03 csfk <kt> <k1> <k2> <k3> <k4> <algo> <signed> <sig> <oracle>` → `ok` / `err` / `panic` -/
+/-! line protocol for C03: `c03 csfk|csfkg <kt> <k1> <k2> <k3> <k4> <algo> <signed> <sig> <oracle>` → `ok` / `err` / `panic`;
+    `c03 dsasign <P> <Q> <G> <X> <digest> <rnd>` → `ok <r> <s>` (hex as `big.Int.Text(16)`) / `err`;
+    `c03 dsaver <P> <Q> <G> <Y> <digest> <r> <s>` → `1` / `0` -/
 namespace ZV.C03
 open ZV
 
@@ -16,12 +18,32 @@ def parseKey (kt k1 k2 k3 k4 : String) : Option Key :=
   | "ed" => some .ed25519
   | _ => none
 
+/-- `(*big.Int).Text(16)` of a natural number -/
+def natHex (n : Nat) : String := String.ofList (Nat.toDigits 16 n)
+
+def csfkLine (kt k1 k2 k3 k4 algo signed sig o : String) : String :=
+  match parseKey kt k1 k2 k3 k4, algo.toNat?, ofHex signed, ofHex sig with
+  | some key, some a, some m, some s => C23.showU (checkSignatureFromKey key a m s (o == "1"))
+  | _, _, _, _ => "bad-op"
+
 def handle (args : List String) : String :=
   match args with
-  | ["csfk", kt, k1, k2, k3, k4, algo, signed, sig, o] =>
-    (match parseKey kt k1 k2 k3 k4, algo.toNat?, ofHex signed, ofHex sig with
-     | some key, some a, some m, some s => C23.showU (checkSignatureFromKey key a m s (o == "1"))
-     | _, _, _, _ => "bad-op")
+  | ["csfk", kt, k1, k2, k3, k4, algo, signed, sig, o] => csfkLine kt k1 k2 k3 k4 algo signed sig o
+  -- `csfkg`: same call; the harness additionally demands acceptance (the signature is the library's own)
+  | ["csfkg", kt, k1, k2, k3, k4, algo, signed, sig, o] => csfkLine kt k1 k2 k3 k4 algo signed sig o
+  | ["dsasign", p, q, g, x, dg, rnd] =>
+    (match C23.parseNat p, C23.parseNat q, C23.parseNat g, C23.parseNat x, ofHex dg, ofHex rnd with
+     | some p, some q, some g, some x, some dg, some rnd =>
+       (match dsaSign p q g x dg rnd with
+        | .ok (r, s) => "ok " ++ natHex r ++ " " ++ natHex s
+        | .err => "err"
+        | .panic => "panic")
+     | _, _, _, _, _, _ => "bad-op")
+  | ["dsaver", p, q, g, y, dg, r, s] =>
+    (match C23.parseNat p, C23.parseNat q, C23.parseNat g, C23.parseNat y, ofHex dg, C23.parseBig r, C23.parseBig s with
+     | some p, some q, some g, some y, some dg, some (some r), some (some s) =>
+       if dsaVerify p q g y dg r s then "1" else "0"
+     | _, _, _, _, _, _, _ => "bad-op")
   | _ => "bad-op"
 
 end ZV.C03
